@@ -77,12 +77,18 @@ def check_cases(prop, tier, res, plan, assumptions, replay=None):
             for k, v in r["kinds"].items():
                 kinds[f"{fam}/{k}"] = kinds.get(f"{fam}/{k}", 0) + v
             samples += r["samples"][:1]
-            props = [(c, v) for c, v in r["bad"] if v.startswith(f"PROP {prop} ") or v.startswith(f"PROP {prop}:")]
+            def names(v):
+                return v.split(" ")[1].split(",") if v.startswith("PROP ") and len(v.split(" ")) > 1 else []
+            props = [(c, v) for c, v in r["bad"] if prop in names(v)]
             others = [(c, v) for c, v in r["bad"] if not v.startswith("PROP ")]
             foreign = [(c, v) for c, v in r["bad"] if v.startswith("PROP ") and (c, v) not in props]
             how = {"harness": [pl["sub"]] + [str(a) for a in pl["args"](tier, seed(), sh)], "driver_mode": pl["mode"]}
-            for c, v in props[:40]:
+            per_clause = {}
+            for c, v in props:
                 clause = v.split(" ")[2] if len(v.split(" ")) > 2 else "?"
+                per_clause[clause] = per_clause.get(clause, 0) + 1
+                if per_clause[clause] > 2:
+                    continue
                 fp = f"{fam}:{clause}:{case_key(c, pl['key_fields'])}"
                 res.violation(fp, f"{prop} violated by the implementation on a concrete input ({fam}/{clause}): {v[:300]}",
                               {"kind": "case", "family": fam, "case": json.loads(c), "verdict": v, "rerun": how}, found=True)
